@@ -26,7 +26,8 @@ W.install_clock()
 
 PROPERTY = "C13"
 CASE = {}
-KERNELS = ["gunicorn.workers.gthread:ThreadWorker.accept", "gunicorn.workers.gthread:ThreadWorker.enqueue_req",
+KERNELS = ["gunicorn.workers.gthread:ThreadWorker.handle", "gunicorn.workers.gthread:ThreadWorker.handle_request",
+           "gunicorn.workers.gthread:ThreadWorker.accept", "gunicorn.workers.gthread:ThreadWorker.enqueue_req",
            "gunicorn.workers.gthread:ThreadWorker._wrap_future", "gunicorn.workers.gthread:ThreadWorker.on_client_socket_readable",
            "gunicorn.workers.gthread:ThreadWorker.finish_request", "gunicorn.workers.gthread:ThreadWorker.murder_keepalived",
            "gunicorn.workers.gthread:ThreadWorker.run", "gunicorn.workers.gthread:TConn.init",
@@ -436,6 +437,57 @@ def run_iter(phases: List[int], deadlines: List[int], ready: List[bool], now: in
     return True
 
 
+REQ1 = b"GET /one HTTP/1.1\r\nHost: h\r\n\r\n"
+REQ2 = b"GET /two HTTP/1.1\r\nHost: h\r\n\r\n"
+
+
+def split_second(cut: int, nwait: int) -> bool:
+    """
+    pre: 1 <= cut < len(REQ2) and 0 <= nwait <= 2
+    post: __return__
+    """
+    # a later request on a kept-alive connection arrives in two segments with a pause in between: it is served as long as a
+    # handler thread is free (the handler must be working on a blocking socket again)
+    from engine.stubs.recsock import WAIT
+    cut, nwait = pick(cut, 1, len(REQ2) - 1), pick(nwait, 0, 2)
+    calls = []
+
+    def app(environ, start_response):
+        calls.append(environ["RAW_URI"])
+        start_response("200 OK", [("Content-Length", "2")])
+        return [b"ok"]
+    cfg = W.make_cfg(keepalive=2, threads=2, worker_connections=4)
+    w = W.thread_worker(cfg, app)
+    w._keep.clear()
+    c = RecSock([REQ1, REQ2[:cut]] + [WAIT] * nwait + [REQ2[cut:]])
+    W.gthread_serve(w, c, max_dispatch=5)
+    from oracles import http_response as hr
+    try:
+        rs = hr.parse_stream(c.wire(), [False, False])
+    except hr.Bad:
+        return False
+    return calls == ["/one", "/two"] and len(rs) == 2 and all(r["complete"] and r["body"] == b"ok" for r in rs) and c.closed >= 1
+
+
+def admission(nkeep: int, wc: int, threads: int) -> bool:
+    """
+    pre: 0 <= nkeep <= 3 and 1 <= threads <= 2 and threads <= wc <= 4
+    post: __return__
+    """
+    # a finished request is only kept alive while fewer than worker_connections - threads idle connections are parked:
+    # otherwise parked connections could fill the worker while handler threads sit idle
+    nkeep, wc, threads = pick(nkeep, 0, 3), pick(wc, 1, 4), pick(threads, 1, 2)
+    if threads > wc:
+        return True
+    cfg = W.make_cfg(keepalive=2, threads=threads, worker_connections=wc)
+    w = W.thread_worker(cfg, lambda e, s: (s("200 OK", [("Content-Length", "2")]) and None) or [b"ok"], keep=nkeep)
+    c = RecSock([REQ1])
+    res, conn = W.run_connection("gthread", w, c)
+    keepalive = res[0]
+    limit = wc - threads
+    return keepalive == (nkeep < limit)
+
+
 def step_twin(phases: List[int], deadlines: List[int], now: int, tape: List[int]) -> bool:
     """
     pre: _pre(phases, deadlines)
@@ -475,5 +527,9 @@ OBLIGATIONS = [
        timeout={"quick": 900, "thorough": 2400},
        bound="one iteration of run() from any state of 2 (thorough 3) connections at or below worker_connections, any subset "
              "of listeners/connections readable, symbolic clock"),
+    Ob("C13.split_second", "split_second", timeout=600,
+       bound="second request of a kept-alive connection split at any offset with 0..2 pauses between the segments"),
+    Ob("C13.admission", "admission", timeout=300,
+       bound="0..3 parked keep-alive connections x worker_connections 1..4 x threads 1..2: kept alive iff parked < connections - threads"),
     Ob("C13.twin", "step_twin", cases=[{"k": 3, "tape": 2}], expect="refute", timeout=300),
 ]
